@@ -784,7 +784,8 @@ func (o *baseObject) defineOwnPropertySym(s *Symbol, descr PropertyDescriptor, t
 }
 
 func (o *baseObject) _put(name unistring.String, v Value) {
-	if _, exists := o.values[name]; !exists {
+	// a key can be present with a nil value: the mark a templated object leaves for a deleted template property
+	if o.values[name] == nil {
 		names := copyNamesIfNeeded(o.propNames, 1)
 		o.propNames = append(names, name)
 	}
